@@ -81,17 +81,20 @@ LastSolid(ts) == CHOOSE k \in 1..Len(ts) : ~IsWsTok(ts[k]) /\ \A j \in (k + 1)..
 FirstSolid(ts) == CHOOSE k \in 1..Len(ts) : ~IsWsTok(ts[k]) /\ \A j \in 1..(k - 1) : IsWsTok(ts[j])
 \* cor = <<kind, k>>: "none" | "trunc" keep the first k tokens (inside a bracketed document) | "trail" append token k of Trailers
 \*                    | "drop" remove token k, which must be a ':' or the closing bracket of the document
+\*                    | "comma" insert a ',' before token k (k = Len + 1: at the end): dangling / doubled / leading separators
 Trailers == <<" x", "]", " 1", ",", "}">>
 Applicable(v, ts, cor) ==
   CASE cor[1] = "none" -> TRUE
     [] cor[1] = "trunc" -> v[1] # "s" /\ cor[2] >= FirstSolid(ts) /\ cor[2] < LastSolid(ts)
     [] cor[1] = "trail" -> cor[2] \in 1..Len(Trailers)
     [] cor[1] = "drop" -> v[1] # "s" /\ cor[2] \in 1..Len(ts) /\ (ts[cor[2]] = ":" \/ cor[2] = LastSolid(ts))
+    [] cor[1] = "comma" -> cor[2] \in 1..(Len(ts) + 1)
     [] OTHER -> FALSE
 Corrupt(ts, cor) ==
   CASE cor[1] = "trunc" -> SubSeq(ts, 1, cor[2])
     [] cor[1] = "trail" -> Append(ts, Trailers[cor[2]])
     [] cor[1] = "drop" -> Remove(ts, cor[2])
+    [] cor[1] = "comma" -> SubSeq(ts, 1, cor[2] - 1) \o <<",">> \o SubSeq(ts, cor[2], Len(ts))
     [] OTHER -> ts
 
 \* ---- class of the rendering of v -----------------------------------------------------------------------
@@ -121,12 +124,14 @@ SkelObj(ms, k) ==
 
 \* ---- what must be observed (obs: the harness' record of one evaluation) -------------------------------------
 \* obs = [pok: parsley returned a value, perr: parsley returned an error, jok: encoding/json accepted,
-\*        agree: deep equality of the two values, skel: structure of parsley's value, panic: bool]
+\*        agree: deep equality of the two values, skel: structure of parsley's value, panic: bool,
+\*        again: a second evaluation of the SAME text.File gave the same value / error]
 \* a corruption of a supported rendering is "corrupt" when it is no longer JSON (encoding/json, the property's own
 \* oracle, rejects it); a damaged text that happens to be valid JSON again carries no obligation beyond totality
 DocClass(v, pat, cor) == IF cor[1] = "none" THEN Class(v, pat) ELSE IF Class(v, pat) = "supported" THEN "corrupt" ELSE "other"
 Required(class, v, obs) ==
   /\ ~obs.panic
+  /\ obs.again                         \* evaluating the same file a second time gives the same answer
   /\ obs.pok # obs.perr
   /\ CASE class = "supported" -> obs.pok /\ obs.jok /\ obs.agree /\ obs.skel = Skel(v)
        [] class = "corrupt" -> (~obs.jok) => (obs.perr /\ ~obs.pok)
